@@ -3,6 +3,7 @@ import Mouette.Model.Surface
 import Mouette.Model.Lazy
 import Mouette.Generated.C01Guards
 import Mouette.Model.SurfaceSpec
+import Mouette.Model.RingSpec
 /-
 Protocol front-end for C01.
   `h <sort> <nv> <nf> (<len> v…)* <nH> ( <nq> ( <name> <nargs> arg… )* )*`
@@ -132,7 +133,9 @@ def handle (ts : List String) : Option String :=
       let bv := boundaryVertices S
       let outs ← hs.mapM (runHistory S bv)
       -- `wf:` = the decidable hypothesis of the theorems of Props/C01 holds on this input
-      let wf := decide (Mouette.Surface.Oriented faces) && faces.all fun F => decide F.Nodup
+      let St := build nv faces true
+      let wf := decide (Mouette.Surface.Oriented faces) && (faces.all fun F => decide F.Nodup) &&
+        (List.range nv).all (umbrellaB St)   -- umbrella condition at every vertex (hypothesis of `ring_sorted`)
       pure (s!"wf:{fmtBool wf} ## " ++ " || ".intercalate (outs.map fun l => " | ".intercalate l))
   | "wg" :: [] => some (fmtBool (Mouette.Lazy.WellGuarded Mouette.Generated.C01.table))
   | _ => none
